@@ -13,9 +13,13 @@ package cache
 
 import (
 	"context"
+	"encoding/json"
 	"fmt"
 	"math/rand"
 	"net"
+	"os"
+	"path/filepath"
+	"sort"
 	"strings"
 	"testing"
 	"time"
@@ -88,6 +92,54 @@ func vC02SharedObs(c *Cache, zone string, base time.Time) (coq, desc string, cut
 	return
 }
 
+// One step of a history, as generated or as read back from corpus/C02/shared-*.json: a clock advance or
+// a client exchange with what the (honest) validating resolver answers downstream.
+type vC02ShOp struct {
+	Adv    int64   `json:"adv,omitempty"`
+	Q      [][]int `json:"q,omitempty"` // labels, leaf first, octets
+	Qtype  uint16  `json:"qtype,omitempty"`
+	CD     bool    `json:"cd,omitempty"`
+	ECS    bool    `json:"ecs,omitempty"`
+	Neg    bool    `json:"neg,omitempty"`  // downstream answers NXDOMAIN / NODATA (whichever is true of the zone)
+	Recs   []int   `json:"recs,omitempty"` // indexes into the zone's NSEC chain, message order
+	TTL    int64   `json:"ttl,omitempty"`
+	Marked bool    `json:"marked,omitempty"`
+	Aggr   bool    `json:"aggr,omitempty"`
+	ResCD  bool    `json:"rescd,omitempty"`
+}
+type vC02ShNode struct {
+	Name  [][]int  `json:"name"`
+	Types []uint16 `json:"types"`
+}
+type vC02ShScript struct {
+	Note      string       `json:"note,omitempty"`
+	CacheSize int          `json:"cache_size"`
+	Apex      [][]int      `json:"apex"`
+	Nodes     []vC02ShNode `json:"nodes"`
+	Ops       []vC02ShOp   `json:"ops"`
+}
+
+func vC02ShLabels(n vC02Name) [][]int {
+	out := make([][]int, len(n))
+	for i, l := range n {
+		out[i] = make([]int, len(l))
+		for j, b := range l {
+			out[i][j] = int(b)
+		}
+	}
+	return out
+}
+func vC02ShName(ls [][]int) vC02Name {
+	n := make(vC02Name, len(ls))
+	for i, l := range ls {
+		n[i] = make([]byte, len(l))
+		for j, b := range l {
+			n[i][j] = byte(b)
+		}
+	}
+	return n
+}
+
 func TestVerifC02Shared(t *testing.T) {
 	tr := vC02Open(t)
 	defer tr.f.Close()
@@ -95,6 +147,28 @@ func TestVerifC02Shared(t *testing.T) {
 	n := vC02EnvInt("VERIF_N", 100)
 	r := rand.New(rand.NewSource(seed*49979687 + 13))
 	g := &vC02Gen{r: r}
+	// fixed regression histories first (corpus/C02/shared-*.json), on every run
+	if dir := os.Getenv("VERIF_CORPUS"); dir != "" {
+		files, _ := filepath.Glob(filepath.Join(dir, "shared-*.json"))
+		sort.Strings(files)
+		for _, f := range files {
+			b, err := os.ReadFile(f)
+			if err != nil {
+				t.Fatalf("corpus %s: %v", f, err)
+			}
+			var sc vC02ShScript
+			if err := json.Unmarshal(b, &sc); err != nil {
+				t.Fatalf("corpus %s: %v", f, err)
+			}
+			z := &vC02Zone{apex: vC02ShName(sc.Apex)}
+			for _, nd := range sc.Nodes {
+				z.nodes = append(z.nodes, vC02Node{vC02ShName(nd.Name), nd.Types})
+			}
+			z.index()
+			g.newPool(true)
+			vC02SharedCase(t, tr, g, z, &sc)
+		}
+	}
 	for c := 0; c < n; c++ {
 		g.newPool(true)
 		apex := vC02Name{[]byte{"abcxyz"[r.Intn(6)]}}
@@ -104,11 +178,11 @@ func TestVerifC02Shared(t *testing.T) {
 				z = g.genZone(apex, 9+r.Intn(4))
 			}
 		}
-		vC02SharedCase(t, tr, g, z)
+		vC02SharedCase(t, tr, g, z, nil)
 	}
 }
 
-func vC02SharedCase(t *testing.T, tr *vC02Trace, g *vC02Gen, z *vC02Zone) {
+func vC02SharedCase(t *testing.T, tr *vC02Trace, g *vC02Gen, z *vC02Zone, script *vC02ShScript) {
 	r := g.r
 	zoneStr := vC02Pres(z.apex)
 	chain := z.nsecChain()
@@ -116,6 +190,13 @@ func vC02SharedCase(t *testing.T, tr *vC02Trace, g *vC02Gen, z *vC02Zone) {
 	// sizing as production derives it from CacheSize: per-zone entry limits of the proof index / the cut
 	// cache are 8/8 at 4096 and 16/32 at 32768; the model gets them as read from the real Store
 	cacheSize := []int{4096, 4096, 4096, 4096, 4096, 4096, 4096, 32768, 32768, 32768}[r.Intn(10)]
+	if script != nil {
+		cacheSize = script.CacheSize
+	}
+	rec := vC02ShScript{CacheSize: cacheSize, Apex: vC02ShLabels(z.apex)}
+	for _, nd := range z.nodes {
+		rec.Nodes = append(rec.Nodes, vC02ShNode{vC02ShLabels(nd.name), nd.types})
+	}
 	cache := New(&config.Config{CacheSize: cacheSize, Expire: 3600})
 	defer cache.Stop()
 	limIndex, limCuts := cache.store.denialProofs.maxEntriesPerZone, cache.store.nxDomainCuts.maxEntriesPerZone
@@ -144,10 +225,20 @@ func vC02SharedCase(t *testing.T, tr *vC02Trace, g *vC02Gen, z *vC02Zone) {
 		nops = 20 + r.Intn(10)
 	}
 	oversize := false
+	if script != nil {
+		nops = len(script.Ops)
+	}
 	for o := 0; o < nops; o++ {
-		if r.Intn(5) == 0 && len(deadlines) > 0 { // advance the clock, away from (or exactly onto) every deadline
+		var sop *vC02ShOp
+		if script != nil {
+			sop = &script.Ops[o]
+		}
+		if (sop != nil && sop.Adv > 0) || (sop == nil && r.Intn(5) == 0 && len(deadlines) > 0) { // advance the clock, away from (or exactly onto) every deadline
 			var s int64
-			for try := 0; try < 20; try++ {
+			if sop != nil {
+				s = sop.Adv
+			}
+			for try := 0; sop == nil && try < 20; try++ {
 				s = []int64{30, 100, 200, 300, 450, 700}[r.Intn(6)]
 				if r.Intn(3) == 0 {
 					if d := deadlines[r.Intn(len(deadlines))] - offset; d > 0 {
@@ -175,6 +266,7 @@ func vC02SharedCase(t *testing.T, tr *vC02Trace, g *vC02Gen, z *vC02Zone) {
 				e.stored = e.stored.Add(-time.Duration(s) * time.Second)
 			}
 			cache.store.nxDomainCuts.mu.Unlock()
+			rec.Ops = append(rec.Ops, vC02ShOp{Adv: s})
 			ops = append(ops, fmt.Sprintf("ShAdvance (%d)", s))
 			desc = append(desc, fmt.Sprintf("advance %ds -> t=%d", s, offset))
 			continue
@@ -183,6 +275,9 @@ func vC02SharedCase(t *testing.T, tr *vC02Trace, g *vC02Gen, z *vC02Zone) {
 		var q vC02Name
 		var qtype uint16
 		found := false
+		if sop != nil {
+			q, qtype, found = vC02ShName(sop.Q), sop.Qtype, true
+		}
 		for try := 0; try < 30 && !found; try++ {
 			q = cands[r.Intn(len(cands))]
 			if r.Intn(3) == 0 {
@@ -198,12 +293,17 @@ func vC02SharedCase(t *testing.T, tr *vC02Trace, g *vC02Gen, z *vC02Zone) {
 		if !found {
 			continue
 		}
-		if r.Intn(6) == 0 {
+		if sop == nil && r.Intn(6) == 0 {
 			kk := len(q) - len(z.apex)
 			q = append(vC02UpperSome(r, q[:kk]), q[kk:]...)
 		}
 		qs := vC02Pres(q)
-		cd, ecs := r.Intn(14) == 0, r.Intn(14) == 0
+		cd, ecs := false, false
+		if sop != nil {
+			cd, ecs = sop.CD, sop.ECS
+		} else {
+			cd, ecs = r.Intn(14) == 0, r.Intn(14) == 0
+		}
 		req := new(dns.Msg)
 		req.SetQuestion(qs, qtype)
 		req.Id = uint16(1000 + o)
@@ -218,35 +318,45 @@ func vC02SharedCase(t *testing.T, tr *vC02Trace, g *vC02Gen, z *vC02Zone) {
 		ndTrue := z.nodataTrue(q, qtype)
 		dsCoq := "DsPositive"
 		dsDesc := "positive"
+		thisOp := vC02ShOp{Q: vC02ShLabels(q), Qtype: qtype, CD: cd, ECS: ecs}
 		var neg *dns.Msg
 		marked, aggressive, resCD := false, false, false
 		var ttl int64
-		if (how == "" || ndTrue) && r.Intn(8) > 0 {
+		if (how == "" || ndTrue) && ((sop != nil && sop.Neg) || (sop == nil && r.Intn(8) > 0)) {
 			rcode := dns.RcodeNameError
 			if how != "" {
 				rcode = dns.RcodeSuccess
 			}
-			ttl = []int64{300, 600, 900}[r.Intn(3)]
-			var recs []vC02Rec
-			for _, rc := range chain {
-				if r.Intn(3) > 0 {
-					recs = append(recs, rc)
+			var recIdx []int
+			if sop != nil {
+				ttl, recIdx, marked, aggressive, resCD = sop.TTL, sop.Recs, sop.Marked, sop.Aggr, sop.ResCD
+			} else {
+				ttl = []int64{300, 600, 900}[r.Intn(3)]
+				for i := range chain {
+					if r.Intn(3) > 0 {
+						recIdx = append(recIdx, i)
+					}
+				}
+				if len(recIdx) == 0 {
+					recIdx = append(recIdx, r.Intn(len(chain)))
+				}
+				r.Shuffle(len(recIdx), func(i, j int) { recIdx[i], recIdx[j] = recIdx[j], recIdx[i] })
+				if cutHeavy && len(recIdx) > 2 {
+					recIdx = recIdx[:1+r.Intn(2)]
+				}
+				if len(recIdx) > 10 { // keeps every cut below the per-entry byte budget (see vC02SharedObs)
+					recIdx = recIdx[:10]
+				}
+				marked, aggressive, resCD = r.Intn(20) > 0, r.Intn(7) > 0, r.Intn(30) == 0
+				if cutHeavy && r.Intn(4) > 0 {
+					marked, aggressive, resCD = true, true, false
 				}
 			}
-			if len(recs) == 0 {
-				recs = append(recs, chain[r.Intn(len(chain))])
+			var recs []vC02Rec
+			for _, i := range recIdx {
+				recs = append(recs, chain[i%len(chain)])
 			}
-			r.Shuffle(len(recs), func(i, j int) { recs[i], recs[j] = recs[j], recs[i] })
-			if cutHeavy && len(recs) > 2 {
-				recs = recs[:1+r.Intn(2)]
-			}
-			if len(recs) > 10 { // keeps every cut below the per-entry byte budget (see vC02SharedObs)
-				recs = recs[:10]
-			}
-			marked, aggressive, resCD = r.Intn(20) > 0, r.Intn(7) > 0, r.Intn(30) == 0
-			if cutHeavy && r.Intn(4) > 0 {
-				marked, aggressive, resCD = true, true, false
-			}
+			thisOp.Neg, thisOp.Recs, thisOp.TTL, thisOp.Marked, thisOp.Aggr, thisOp.ResCD = true, recIdx, ttl, marked, aggressive, resCD
 			neg = new(dns.Msg)
 			neg.SetRcode(req, rcode)
 			neg.RecursionAvailable = true
@@ -315,11 +425,13 @@ func vC02SharedCase(t *testing.T, tr *vC02Trace, g *vC02Gen, z *vC02Zone) {
 			// byte limit bind first: such a history is outside the modelled family
 			oversize = true
 		}
+		rec.Ops = append(rec.Ops, thisOp)
 		ops = append(ops, fmt.Sprintf("ShExchange %s %d %v %v %s %s %s", vC02Coq(q), qtype, cd, ecs, dsCoq, synth, obsCoq))
 		desc = append(desc, fmt.Sprintf("t=%d %s %s cd=%v ecs=%v downstream:[%s] -> synthesized=%s [truth: exists=%q nodata=%v] state after: %s", offset, qs, dns.TypeToString[qtype], cd, ecs, dsDesc, synth, how, ndTrue, obsDesc))
 	}
 	tr.emit(map[string]any{
-		"k":            "shared-history",
+		"k":            map[bool]string{false: "shared-history", true: "shared-corpus"}[script != nil],
+		"script":       rec, // the history in corpus form: save it as corpus/C02/shared-<name>.json to pin it
 		"coq":          fmt.Sprintf("(CaseShared %s (%d) %d %d [%s])%%N", z.coq(), maxTTL, limIndex, limCuts, strings.Join(ops, ";")),
 		"inconclusive": oversize,
 		"go_fail":      goFail,
